@@ -200,7 +200,7 @@ def run_halfclose(o, ctx):
         p = a.split()
         got = p[1].split("/") if len(p) >= 2 and p[0] == "V" else None
         if got != w and len(o.violations) < 30:
-            o.violations.append({"case": c, "impl": a[:300], "expected": "/".join(w), "why": "request sent together with the client's half-close: transcript %s, specification %s" % (a[:80], "/".join(w)[:80])})
+            o.violations.append({"case": c, "impl": a[:300], "expected": "/".join(w), "why": "%s: transcript %s, specification %s" % ("a kept-alive connection while another waits for a worker" if c.endswith(over[0]) else "request sent together with the client's half-close", a[:80], "/".join(w)[:80])})
     # a handler error of ANY kind ends the connection, in epoll mode as in the others (nothing further is read)
     kinds = ["wouldblock", "interrupted", "timedout", "brokenpipe", "reset", "other", "eof", "invaliddata", "aborted"]
     klines = ["SERVE mode=%s threads=2 plan=P:s:%s,r,s:%s,r,e/S:e" % (m, hx(b"GET /errkind/%s HTTP/1.1\r\n\r\n" % k.encode()), hx(p1)) for k in kinds for m in ("epoll", "threaded")]
